@@ -277,6 +277,9 @@ oldbuf:
 err1:
 	free(WB);
 err0:
+	/* We did not reserve anything. */
+	W->reserved = 0;
+
 	/* Failure! */
 	return (NULL);
 }
